@@ -277,6 +277,24 @@ def history(ctx: Any) -> List[Ob]:
             ok_k = all(s.kind == 'return' and norm(s.ast.value) == 'False' for s, lab in t.succ if lab is True)
     obs.append(ob(R, h, 'if now - than > _DUPLICATE_QUESTION_INTERVAL: return False', 'a question asked more than 999 ms ago does not suppress', ok_w))
     obs.append(ob(R, h, 'if previous_known_answers - known_answers: return False', 'a previous question whose known answers contained something we do not know does not suppress', ok_k))
+    # expiry of the history removes exactly the entries older than the window: each is tested on its own time (dict order is
+    # the order of FIRST insertion -- re-recording a question does not move it -- so no shortcut through `the last entry`)
+    ex = prog.func('zeroconf._history.QuestionHistory.async_expire')
+    xme = ex.params[0]
+    xcfg = cfg_of(ex.node)
+    clears = [c for c in walk_local_ordered(ex.node) if isinstance(c, ast.Call) and call_name(c) in ('clear', 'popitem') and isinstance(c.func, ast.Attribute)]
+    age_tests = []
+    for t in xcfg.nodes:
+        if t.kind == 'test' and isinstance(t.ast, ast.Compare):
+            try:
+                pp, oo = lf.comparison(prog, ex.module, t.ast, lambda x: ('NOW' if isinstance(x, ast.Name) and x.id == ex.params[1] else ('THEN' if isinstance(x, ast.Name) else None)))
+                if lf.same_cmp((pp, oo), lf.parse_cmp('999 - NOW + THEN < 0')):
+                    age_tests.append(t)
+            except lf.NotLinear:
+                pass
+    dels = [n for n in xcfg.nodes if n.kind == 'stmt' and (isinstance(n.ast, ast.Delete) or any(call_name(c) == 'pop' for c in n.calls()))]
+    per_entry = bool(age_tests) and all(any(lp_ for lp_ in t.in_loop) for t in age_tests)
+    obs.append(ob(R, ex, clears[0] if clears else 'for question, (than, _) in history: if now - than > 999: remove', 'expiry drops exactly the questions last recorded more than 999 ms ago, each judged by its own time (never the whole history at once)', per_entry and not clears and bool(dels), 'the whole history is dropped on the evidence of one entry' if clears else ''))
     # responder side: what is remembered with a heard question is the union of the known answers of ALL packets of the query
     ar = prog.func('zeroconf._handlers.query_handler.QueryHandler.async_response')
     msgs = ar.params[1]
